@@ -726,4 +726,61 @@ theorem fixFree_length : ∀ (n : Nat) (ps : List Rat) (fs : List Bool) (v : Rat
     obtain ⟨h1, h2⟩ := fixFree_length n ps fs v
     cases f <;> simp [fixFree, h1, h2]
 
+/-! ## one component under the lifetime bounds: the profile likelihood is unimodal -/
+
+/-- the profile `−n log τ − S/τ` increases up to `S/n` -/
+theorem profile_mono_left (n S t1 t2 : ℝ) (hn : 0 < n) (h1 : 0 < t1) (h12 : t1 ≤ t2) (h2 : t2 ≤ S / n) :
+    -(n * Real.log t1) - S / t1 ≤ -(n * Real.log t2) - S / t2 := by
+  have ht2 : 0 < t2 := lt_of_lt_of_le h1 h12
+  have hS : n * t2 ≤ S := by rwa [le_div_iff₀ hn, mul_comm] at h2
+  have hlog : Real.log t2 - Real.log t1 ≤ t2 / t1 - 1 := by
+    rw [← Real.log_div ht2.ne' h1.ne']
+    exact Real.log_le_sub_one_of_pos (div_pos ht2 h1)
+  have hkey : n * (t2 / t1 - 1) ≤ S / t1 - S / t2 := by
+    have : S / t1 - S / t2 - n * (t2 / t1 - 1) = (S - n * t2) * (t2 - t1) / (t1 * t2) := by
+      field_simp
+    have hnn : 0 ≤ (S - n * t2) * (t2 - t1) / (t1 * t2) :=
+      div_nonneg (mul_nonneg (by linarith) (by linarith)) (mul_pos h1 ht2).le
+    linarith
+  nlinarith [mul_le_mul_of_nonneg_left hlog hn.le]
+
+/-- ... and decreases from `S/n` on -/
+theorem profile_mono_right (n S t1 t2 : ℝ) (hn : 0 < n) (h1 : 0 < t1) (h12 : t1 ≤ t2) (h0 : S / n ≤ t1) :
+    -(n * Real.log t2) - S / t2 ≤ -(n * Real.log t1) - S / t1 := by
+  have ht2 : 0 < t2 := lt_of_lt_of_le h1 h12
+  have hS : S ≤ n * t1 := by rwa [div_le_iff₀ hn, mul_comm] at h0
+  have hlog : Real.log t1 - Real.log t2 ≤ t1 / t2 - 1 := by
+    rw [← Real.log_div h1.ne' ht2.ne']
+    exact Real.log_le_sub_one_of_pos (div_pos h1 ht2)
+  have hkey : S / t1 - S / t2 ≤ n * (1 - t1 / t2) := by
+    have : n * (1 - t1 / t2) - (S / t1 - S / t2) = (n * t1 - S) * (t2 - t1) / (t1 * t2) := by
+      field_simp
+    have hnn : 0 ≤ (n * t1 - S) * (t2 - t1) / (t1 * t2) :=
+      div_nonneg (mul_nonneg (by linarith) (by linarith)) (mul_pos h1 ht2).le
+    linarith
+  nlinarith [mul_le_mul_of_nonneg_left hlog hn.le]
+
+/-- over a search interval `[lo, hi]` the profile is maximal at the closed form clipped to the interval -/
+theorem profile_max_clamped (n S lo hi tau : ℝ) (hn : 0 < n) (hS : 0 < S) (hlo : 0 < lo) (hlh : lo ≤ hi)
+    (h1 : lo ≤ tau) (h2 : tau ≤ hi) :
+    -(n * Real.log tau) - S / tau
+      ≤ -(n * Real.log (max lo (min hi (S / n)))) - S / (max lo (min hi (S / n))) := by
+  have ht : 0 < tau := lt_of_lt_of_le hlo h1
+  by_cases ha : S / n < lo
+  · have : max lo (min hi (S / n)) = lo := by
+      rw [min_eq_right (by linarith), max_eq_left ha.le]
+    rw [this]
+    exact profile_mono_right n S lo tau hn hlo h1 ha.le
+  · have ha' : lo ≤ S / n := not_lt.1 ha
+    by_cases hb : hi < S / n
+    · have : max lo (min hi (S / n)) = hi := by
+        rw [min_eq_left hb.le, max_eq_right hlh]
+      rw [this]
+      exact profile_mono_left n S tau hi hn ht h2 hb.le
+    · have hb' : S / n ≤ hi := not_lt.1 hb
+      have : max lo (min hi (S / n)) = S / n := by
+        rw [min_eq_right hb', max_eq_right ha']
+      rw [this]
+      exact (profile_max n S tau hn hS ht).1
+
 end Verif.C15
